@@ -261,7 +261,7 @@ func (p *parser) parseTokendef() *TokenDef {
 				Tag: Tag,
 				// noname need do for sepical.
 				Name:  genTempName(p.current.Value),
-				Value: int(p.current.Value[0]),
+				Value: charCode(p.current.Value),
 				IDTyp: TERMID,
 				Alias: p.current.Value,
 			}
@@ -315,7 +315,7 @@ func (p *parser) parsePrecList(Tklist *[]TokenDef) []PrecDef {
 			idvalue := 0
 			if p.current.Is(Charater) {
 				IdName = genTempName(IdName)
-				idvalue = int(p.current.Value[0])
+				idvalue = charCode(p.current.Value)
 			}
 			if !p.TokenDefMap[IdName] {
 				id := Idendity{
@@ -503,7 +503,7 @@ func (p *parser) parseRule(toklst *[]TokenDef) []RuleDef {
 					Tag: "",
 					// noname need do for sepical.
 					Name:  genTempName(p.current.Value),
-					Value: int(p.current.Value[0]),
+					Value: charCode(p.current.Value),
 					IDTyp: TERMID,
 					Alias: "",
 				}
